@@ -38,7 +38,11 @@ class Line(G):
         self.coords, self.k, self.tag, self.length = coords, k, tag, length
 
     def intersects(self, region):
-        return bool(self.k.out(self.idx, region.root().idx)['intersects'])
+        self.k.calls.add((self.idx, region.root().idx))
+        o = self.k.out(self.idx, region.root().idx)
+        if region.hull_of is not None:
+            return bool(o.get('intersects_hull', o['intersects']))
+        return bool(o['intersects'])
 
 
 class Poly(G):
@@ -85,6 +89,7 @@ class Kernel:
     def __init__(self, case):
         self.case = case
         self.reg_ids, self.line_ids, self.poly_ids = {}, {}, {}
+        self.calls = set()
 
     def out(self, l, r):
         return self.case['kernel']['%d_%d' % (l, r)]
@@ -175,6 +180,13 @@ def _assign(case):
             o = k.out(l, r)
             placed = [ln for ln in out[r].lines if ln.id == 'r%03d-l%03d' % (r, l + 1)]
             b, t = o['base'], o['outline']
+            if (l, r) not in k.calls:
+                # the bounding-box pre-filter dropped the pair: a baseline lying wholly inside the region can then only be a single point
+                x0, y0, x1, y1 = [_f(v) for v in case['regions'][r]]
+                pts = b_list[l]
+                if all(x0 <= px <= x1 and y0 <= py <= y1 for px, py in pts) and not (pts[0] == pts[1]).all():
+                    bad.append('the bounding-box pre-filter dropped line %d whose baseline %r lies wholly inside region %d' % (l, pts.tolist(), r))
+                continue
             if placed:
                 ln = placed[0]
                 if not o['intersects']:
